@@ -56,7 +56,7 @@ def run(ctx):
     # what is advertised is what is recorded only if every successful return of the allocator went through the write
     from .c18 import _r1 as write_dominates_ok
     write_dominates_ok(ctx, W)
-    ctx.include("C18", rules=("R11", "R9"))
+    ctx.include("C18", rules=("R11", "R12", "R9"))
     Tw = terms(P, wbody)
     where = ctx.where(wbody, W.term["sp"])
     cols = W.stmt["cols"]
